@@ -71,6 +71,16 @@ fn main() {
             }
         }
         "run" => run(&args),
+        "c12-transcript" => {
+            let seed: u64 = args.get(2).and_then(|s| s.parse().ok()).unwrap_or(0);
+            let cases: usize = args.get(3).and_then(|s| s.parse().ok()).unwrap_or(100);
+            props::c12::print_transcript_hashes(seed, cases);
+        }
+        "c12-case" => {
+            let seed: u64 = args.get(2).and_then(|s| s.parse().ok()).unwrap_or(0);
+            let idx: usize = args.get(3).and_then(|s| s.parse().ok()).unwrap_or(0);
+            props::c12::print_transcript_case(seed, idx);
+        }
         "replay" => replay(&args),
         other => {
             eprintln!("unknown command {}", other);
